@@ -824,12 +824,12 @@ theorem Plain.isTrue_iff (p : Plain) (h : p.WF) : p.isTrue = true ↔ p.members 
   | arr vs off count =>
     simp only [Plain.isTrue, decide_eq_true_eq]
     have h1 := Plain.count_eq (.arr vs off count) h
-    simp only [Plain.count] at h1
+    simp only [Plain.count, Plain.members] at h1 ⊢
     rw [h1]
     constructor
     · intro hp hc; rw [hc] at hp; simp at hp
     · intro hne
-      cases hm : (Plain.arr vs off count).members with
+      cases hm : (kden vs off).map (fun p => itemV p.1 p.2) with
       | nil => exact absurd hm hne
       | cons a r => simp
   | dict m =>
@@ -841,12 +841,686 @@ theorem Plain.isTrue_iff (p : Plain) (h : p.WF) : p.isTrue = true ↔ p.members 
       obtain ⟨k, d⟩ := p
       simp only [List.isEmpty_cons, Bool.not_false, true_iff, dictMembers]
       intro hc
-      have := congrArg List.length hc
       cases d with
-      | one v => simp [DVal.vals] at this
+      | one v => simp [DVal.vals] at hc
       | many vs =>
         have hw := h.2.2 (k, .many vs) (by simp)
         simp only [DVal.WF] at hw
-        simp [DVal.vals] at this
-        omega
+        have hv : vs = [] := by simpa [DVal.vals] using (List.append_eq_nil_iff.1 hc).1
+        rw [hv] at hw
+        simp at hw
   | rel names rows => simp [Plain.isTrue, Plain.members]
+
+/-! ## building blocks: `fromFrozen`, the pair extractors, `asString`/`asBytes`/`asArray` -/
+
+theorem fromFrozen_members (xs : List V) : (fromFrozen xs).members = xs := by
+  unfold fromFrozen
+  split
+  · rfl
+  · split
+    · rename_i x h; subst h; rfl
+    · rfl
+  · rfl
+
+theorem fromFrozen_wf (xs : List V) (hs : Sorted xs) (hb : ∀ x, x ∈ xs → bucketOf x = .generic) :
+    (fromFrozen xs).WF := by
+  unfold fromFrozen
+  split
+  · trivial
+  · split
+    · trivial
+    · rename_i x hx
+      refine ⟨hs, by simp, ?_, hb⟩
+      intro hc
+      simp only [List.cons.injEq, and_true] at hc
+      exact hx hc
+  · rename_i h1 h2
+    refine ⟨hs, ?_, ?_, hb⟩
+    · intro hc; exact h1 hc
+    · intro hc; exact h2 _ hc
+
+theorem fromFrozen_bucket (xs : List V) : (fromFrozen xs).bucket = .generic := by
+  unfold fromFrozen
+  split
+  · rfl
+  · split <;> rfl
+  · rfl
+
+theorem mem_charPairs (l : List V) (i : Int) (c : Nat) :
+    (i, c) ∈ charPairs l ↔ charV i c ∈ l ∧ (c : Int) ≤ maxRune := by
+  induction l with
+  | nil => simp [charPairs]
+  | cons v r ih =>
+    simp only [charPairs]
+    cases hv : asChar v with
+    | none =>
+      simp only [ih, List.mem_cons]
+      constructor
+      · rintro ⟨h1, h2⟩; exact ⟨Or.inr h1, h2⟩
+      · rintro ⟨h1 | h1, h2⟩
+        · rw [← h1, asChar_charV i c h2] at hv; cases hv
+        · exact ⟨h1, h2⟩
+    | some p =>
+      obtain ⟨j, d⟩ := p
+      obtain ⟨rfl, hd⟩ := (asChar_eq_some v j d).1 hv
+      simp only [List.mem_cons, ih, Prod.mk.injEq]
+      constructor
+      · rintro (⟨rfl, rfl⟩ | ⟨h1, h2⟩)
+        · exact ⟨Or.inl rfl, hd⟩
+        · exact ⟨Or.inr h1, h2⟩
+      · rintro ⟨h1 | h1, h2⟩
+        · exact Or.inl (charV_inj h1)
+        · exact Or.inr ⟨h1, h2⟩
+
+theorem mem_bytePairs (l : List V) (i : Int) (c : Nat) :
+    (i, c) ∈ bytePairs l ↔ byteV i c ∈ l ∧ (c : Int) ≤ 255 := by
+  induction l with
+  | nil => simp [bytePairs]
+  | cons v r ih =>
+    simp only [bytePairs]
+    cases hv : asByte v with
+    | none =>
+      simp only [ih, List.mem_cons]
+      constructor
+      · rintro ⟨h1, h2⟩; exact ⟨Or.inr h1, h2⟩
+      · rintro ⟨h1 | h1, h2⟩
+        · rw [← h1, asByte_byteV i c h2] at hv; cases hv
+        · exact ⟨h1, h2⟩
+    | some p =>
+      obtain ⟨j, d⟩ := p
+      obtain ⟨rfl, hd⟩ := (asByte_eq_some v j d).1 hv
+      simp only [List.mem_cons, ih, Prod.mk.injEq]
+      constructor
+      · rintro (⟨rfl, rfl⟩ | ⟨h1, h2⟩)
+        · exact ⟨Or.inl rfl, hd⟩
+        · exact ⟨Or.inr h1, h2⟩
+      · rintro ⟨h1 | h1, h2⟩
+        · exact Or.inl (byteV_inj h1)
+        · exact Or.inr ⟨h1, h2⟩
+
+theorem mem_itemPairs (l : List V) (i : Int) (x : V) : (i, x) ∈ itemPairs l ↔ itemV i x ∈ l := by
+  induction l with
+  | nil => simp [itemPairs]
+  | cons v r ih =>
+    simp only [itemPairs]
+    cases hv : asItem v with
+    | none =>
+      simp only [ih, List.mem_cons]
+      constructor
+      · intro h1; exact Or.inr h1
+      · rintro (h1 | h1)
+        · rw [← h1, asItem_itemV i x] at hv; cases hv
+        · exact h1
+    | some p =>
+      obtain ⟨j, d⟩ := p
+      have := (asItem_eq_some v j d).1 hv
+      subst this
+      simp only [List.mem_cons, ih, Prod.mk.injEq]
+      constructor
+      · rintro (⟨rfl, rfl⟩ | h1)
+        · exact Or.inl rfl
+        · exact Or.inr h1
+      · rintro (h1 | h1)
+        · exact Or.inl (itemV_inj h1)
+        · exact Or.inr h1
+
+theorem mem_of_kget_exists {α : Type} {l : List (Option α)} {x : α} (h : some x ∈ l) : ∃ n, kget l n = some x := by
+  obtain ⟨n, hn, he⟩ := List.getElem_of_mem h
+  refine ⟨n, ?_⟩
+  simp [kget, List.getElem?_eq_getElem hn, he]
+
+/-- every element of a built slice is one of the given pairs -/
+theorem build_elem {α : Type} (ps : List (Int × α)) (hf : Functional ps) (x : α) (h : some x ∈ (build ps).1) :
+    ∃ i, (i, x) ∈ ps := by
+  obtain ⟨n, hn⟩ := mem_of_kget_exists h
+  refine ⟨(build ps).2 + n, ?_⟩
+  rw [← mem_kden_build ps hf, mem_kden]
+  refine ⟨by omega, ?_⟩
+  have : ((build ps).2 + ↑n - (build ps).2).toNat = n := by omega
+  rw [this]; exact hn
+
+/-- `asString` of a non-empty, non-superimposed list of char pairs -/
+theorem asString_spec (ps : List (Int × Nat)) (hne : ps ≠ []) (hf : Functional ps)
+    (hr : ∀ p, p ∈ ps → (p.2 : Int) ≤ maxRune) :
+    (asString ps).WF ∧ ∀ v, v ∈ (asString ps).members ↔ ∃ i c, v = charV i c ∧ (i, c) ∈ ps := by
+  constructor
+  · refine ⟨rfl, ?_, ?_⟩
+    · cases ps with
+      | nil => exact absurd rfl hne
+      | cons p r =>
+        obtain ⟨i, c⟩ := p
+        have := (mem_kden_build ((i, c) :: r) hf i c).2 (by simp)
+        exact kcount_pos_of_get ((mem_kden _ _ _ _).1 this).2
+    · intro c hc
+      obtain ⟨i, hi⟩ := build_elem ps hf c hc
+      exact hr _ hi
+  · intro v
+    simp only [asString, mem_str_members]
+    constructor
+    · rintro ⟨i, c, rfl, h⟩
+      exact ⟨i, c, rfl, (mem_kden_build ps hf i c).1 ((mem_kden _ _ _ _).2 h)⟩
+    · rintro ⟨i, c, rfl, h⟩
+      exact ⟨i, c, rfl, (mem_kden _ _ _ _).1 ((mem_kden_build ps hf i c).2 h)⟩
+
+/-- `asArray` -/
+theorem asArray_spec (ps : List (Int × V)) (hf : Functional ps) :
+    (asArray ps).WF ∧ ∀ v, v ∈ (asArray ps).members ↔ ∃ i x, v = itemV i x ∧ (i, x) ∈ ps := by
+  constructor
+  · rfl
+  · intro v
+    simp only [asArray, mem_arr_members]
+    constructor
+    · rintro ⟨i, c, rfl, h⟩
+      exact ⟨i, c, rfl, (mem_kden_build ps hf i c).1 ((mem_kden _ _ _ _).2 h)⟩
+    · rintro ⟨i, c, rfl, h⟩
+      exact ⟨i, c, rfl, (mem_kden _ _ _ _).1 ((mem_kden_build ps hf i c).2 h)⟩
+
+/-- the pairs leave no index between the lowest and the highest unclaimed -/
+def NoGap {α : Type} (ps : List (Int × α)) : Prop :=
+  ∀ n, n < (build ps).1.length → ∃ x, kget (build ps).1 n = some x
+
+theorem kden_map_getD (l : List (Option Nat)) (off : Int) (h : ∀ n, n < l.length → ∃ x, kget l n = some x) :
+    kden ((l.map (fun o => o.getD 0)).map some) off = kden l off := by
+  induction l generalizing off with
+  | nil => rfl
+  | cons v r ih =>
+    have h0 := h 0 (by simp)
+    rw [kget_cons_zero] at h0
+    obtain ⟨x, rfl⟩ := h0
+    have hr : ∀ n, n < r.length → ∃ x, kget r n = some x := by
+      intro n hn
+      have := h (n + 1) (by simp; omega)
+      rwa [kget_cons_succ] at this
+    simp only [List.map_cons, Option.getD_some, kden]
+    rw [ih (off + 1) hr]
+
+/-- `asBytes` of a non-empty, non-superimposed, gap-free list of byte pairs -/
+theorem asBytes_spec (ps : List (Int × Nat)) (hne : ps ≠ []) (hf : Functional ps)
+    (hr : ∀ p, p ∈ ps → (p.2 : Int) ≤ 255) (hg : NoGap ps) :
+    (asBytes ps).WF ∧ ∀ v, v ∈ (asBytes ps).members ↔ ∃ i c, v = byteV i c ∧ (i, c) ∈ ps := by
+  have hk : ∀ off, kden (((build ps).1.map (fun o => o.getD 0)).map some) off = kden (build ps).1 off :=
+    fun off => kden_map_getD _ off hg
+  constructor
+  · show ((build ps).1.map (fun o => o.getD 0)) ≠ [] ∧
+      ∀ x : Nat, x ∈ ((build ps).1.map (fun o => o.getD 0)) → (x : Int) ≤ 255
+    refine ⟨?_, ?_⟩
+    · cases ps with
+      | nil => exact absurd rfl hne
+      | cons p r =>
+        intro hc
+        have := build_ne_nil p r
+        exact this (by simpa using hc)
+    · intro x hx
+      simp only [List.mem_map] at hx
+      obtain ⟨o, ho, rfl⟩ := hx
+      obtain ⟨n, hn, he⟩ := List.getElem_of_mem ho
+      obtain ⟨y, hy⟩ := hg n hn
+      have : o = some y := by
+        simp only [kget, List.getElem?_eq_getElem hn, he] at hy
+        cases o with
+        | none => simp at hy
+        | some z => simp at hy; rw [hy]
+      subst this
+      obtain ⟨i, hi⟩ := build_elem ps hf y ho
+      exact hr _ hi
+  · intro v
+    simp only [asBytes, Plain.members, List.mem_map]
+    rw [hk]
+    constructor
+    · rintro ⟨⟨i, c⟩, hp, rfl⟩
+      exact ⟨i, c, rfl, (mem_kden_build ps hf i c).1 hp⟩
+    · rintro ⟨i, c, rfl, h⟩
+      exact ⟨(i, c), (mem_kden_build ps hf i c).2 h, rfl⟩
+
+/-! ### Dict building blocks -/
+
+theorem newMultipleValues_vals (vs : List V) : (newMultipleValues vs).vals = FinSet.mk vs := by
+  unfold newMultipleValues
+  split
+  · rename_i v h; simp [DVal.vals, h]
+  · rfl
+
+theorem newMultipleValues_wf (vs : List V) (hne : vs ≠ []) : (newMultipleValues vs).WF := by
+  unfold newMultipleValues
+  split
+  · trivial
+  · rename_i h
+    refine ⟨FinSet.sorted_mk vs, ?_⟩
+    cases hm : FinSet.mk vs with
+    | nil =>
+      cases vs with
+      | nil => exact absurd rfl hne
+      | cons a r =>
+        have : a ∈ FinSet.mk (a :: r) := (FinSet.mem_mk _ _).2 (by simp)
+        rw [hm] at this; cases this
+    | cons a r =>
+      cases r with
+      | nil => exact absurd hm (h a)
+      | cons b t => simp
+
+theorem mem_dictMembers_put (m : List (V × DVal)) (hn : (m.map (·.1)).Nodup) (k : V) (d : DVal) (v : V) :
+    v ∈ dictMembers (AL.put k d m) ↔
+      (∃ y, y ∈ d.vals ∧ v = entryV k y) ∨
+      (∃ k' d' y, (k', d') ∈ m ∧ k' ≠ k ∧ y ∈ d'.vals ∧ v = entryV k' y) := by
+  rw [mem_dictMembers]
+  constructor
+  · rintro ⟨k', d', y, hm, hy, rfl⟩
+    rcases (AL.mem_put m k d hn (k', d')).1 hm with h | ⟨h, hne⟩
+    · simp only [Prod.mk.injEq] at h
+      obtain ⟨rfl, rfl⟩ := h
+      exact Or.inl ⟨y, hy, rfl⟩
+    · exact Or.inr ⟨k', d', y, h, hne, hy, rfl⟩
+  · rintro (⟨y, hy, rfl⟩ | ⟨k', d', y, hm, hne, hy, rfl⟩)
+    · exact ⟨k, d, y, (AL.mem_put m k d hn (k, d)).2 (Or.inl rfl), hy, rfl⟩
+    · exact ⟨k', d', y, (AL.mem_put m k d hn (k', d')).2 (Or.inr ⟨hm, hne⟩), hy, rfl⟩
+
+theorem mem_dictMembers_split (m : List (V × DVal)) (hn : (m.map (·.1)).Nodup) (k : V) (v : V) :
+    v ∈ dictMembers m ↔
+      (∃ d y, AL.get k m = some d ∧ y ∈ d.vals ∧ v = entryV k y) ∨
+      (∃ k' d' y, (k', d') ∈ m ∧ k' ≠ k ∧ y ∈ d'.vals ∧ v = entryV k' y) := by
+  rw [mem_dictMembers]
+  constructor
+  · rintro ⟨k', d', y, hm, hy, rfl⟩
+    by_cases hk : k' = k
+    · subst hk
+      exact Or.inl ⟨d', y, (AL.get_eq_some_of_mem m hn k' d').2 hm, hy, rfl⟩
+    · exact Or.inr ⟨k', d', y, hm, hk, hy, rfl⟩
+  · rintro (⟨d, y, hg, hy, rfl⟩ | ⟨k', d', y, hm, _, hy, rfl⟩)
+    · exact ⟨k, d, y, (AL.get_eq_some_of_mem m hn k d).1 hg, hy, rfl⟩
+    · exact ⟨k', d', y, hm, hy, rfl⟩
+
+def DictOK (m : List (V × DVal)) : Prop := (m.map (·.1)).Nodup ∧ ∀ kd, kd ∈ m → kd.2.WF
+
+theorem DictOK.put {m : List (V × DVal)} (h : DictOK m) (k : V) (d : DVal) (hd : d.WF) : DictOK (AL.put k d m) := by
+  refine ⟨AL.nodup_put m k d h.1, ?_⟩
+  intro kd hkd
+  rcases (AL.mem_put m k d h.1 kd).1 hkd with rfl | ⟨hm, _⟩
+  · exact hd
+  · exact h.2 kd hm
+
+theorem dictAdd_spec (m : List (V × DVal)) (h : DictOK m) (k x : V) :
+    DictOK (dictAdd m k x) ∧ dictAdd m k x ≠ [] ∧
+    ∀ v, v ∈ dictMembers (dictAdd m k x) ↔ v = entryV k x ∨ v ∈ dictMembers m := by
+  have hne : ∀ d, AL.put k d m ≠ [] := by
+    intro d hc
+    have : (k, d) ∈ AL.put k d m := (AL.mem_put m k d h.1 (k, d)).2 (Or.inl rfl)
+    rw [hc] at this; cases this
+  have aux : ∀ (v : V) (d0 : DVal), (∃ d y, some d0 = some d ∧ y ∈ d.vals ∧ v = entryV k y) ↔
+      ∃ y, y ∈ d0.vals ∧ v = entryV k y := by
+    intro v d0
+    constructor
+    · rintro ⟨d, y, hd, hy, hv⟩
+      cases hd
+      exact ⟨y, hy, hv⟩
+    · rintro ⟨y, hy, hv⟩
+      exact ⟨d0, y, rfl, hy, hv⟩
+  unfold dictAdd
+  cases hg : AL.get k m with
+  | none =>
+    refine ⟨h.put k _ trivial, hne _, ?_⟩
+    intro v
+    rw [mem_dictMembers_put m h.1, mem_dictMembers_split m h.1 k, hg]
+    simp [DVal.vals]
+  | some d =>
+    cases d with
+    | one u =>
+      refine ⟨h.put k _ (newMultipleValues_wf _ (by simp)), hne _, ?_⟩
+      intro v
+      rw [mem_dictMembers_put m h.1, mem_dictMembers_split m h.1 k, hg, newMultipleValues_vals, aux]
+      have hu : ∀ y, y ∈ (DVal.one u).vals ↔ y = u := by intro y; simp [DVal.vals]
+      have hm : ∀ y, y ∈ FinSet.mk [u, x] ↔ y = u ∨ y = x := by intro y; simp [FinSet.mem_mk]
+      constructor
+      · rintro (⟨y, hy, rfl⟩ | hr)
+        · rcases (hm y).1 hy with rfl | rfl
+          · exact Or.inr (Or.inl ⟨y, (hu y).2 rfl, rfl⟩)
+          · exact Or.inl rfl
+        · exact Or.inr (Or.inr hr)
+      · rintro (rfl | ⟨y, hy, rfl⟩ | hr)
+        · exact Or.inl ⟨x, (hm x).2 (Or.inr rfl), rfl⟩
+        · exact Or.inl ⟨y, (hm y).2 (Or.inl ((hu y).1 hy)), rfl⟩
+        · exact Or.inr hr
+    | many vs =>
+      have hw : (DVal.many vs).WF := h.2 (k, .many vs) ((AL.get_eq_some_of_mem m h.1 k _).1 hg)
+      have hw' : (DVal.many (FinSet.ins x vs)).WF := by
+        refine ⟨FinSet.sorted_ins x vs hw.1, ?_⟩
+        have := FinSet.card_ins x vs hw.1
+        simp only [FinSet.card] at this
+        have h2 := hw.2
+        split at this <;> omega
+      refine ⟨h.put k _ hw', hne _, ?_⟩
+      intro v
+      rw [mem_dictMembers_put m h.1, mem_dictMembers_split m h.1 k, hg, aux]
+      have hu : ∀ y, y ∈ (DVal.many vs).vals ↔ y ∈ vs := by intro y; simp [DVal.vals]
+      have hm : ∀ y, y ∈ (DVal.many (FinSet.ins x vs)).vals ↔ y = x ∨ y ∈ vs := by
+        intro y; simp [DVal.vals, FinSet.mem_ins]
+      constructor
+      · rintro (⟨y, hy, rfl⟩ | hr)
+        · rcases (hm y).1 hy with rfl | hy'
+          · exact Or.inl rfl
+          · exact Or.inr (Or.inl ⟨y, (hu y).2 hy', rfl⟩)
+        · exact Or.inr (Or.inr hr)
+      · rintro (rfl | ⟨y, hy, rfl⟩ | hr)
+        · exact Or.inl ⟨x, (hm x).2 (Or.inl rfl), rfl⟩
+        · exact Or.inl ⟨y, (hm y).2 (Or.inr ((hu y).1 hy)), rfl⟩
+        · exact Or.inr hr
+
+theorem dictAddAll_spec (vs : List V) (m : List (V × DVal)) (h : DictOK m) :
+    DictOK (dictAddAll m vs) ∧
+    (∀ v, v ∈ dictMembers (dictAddAll m vs) ↔ v ∈ dictMembers m ∨ (v ∈ vs ∧ (asEntry v).isSome = true)) ∧
+    (m ≠ [] ∨ (∃ v, v ∈ vs ∧ (asEntry v).isSome = true) → dictAddAll m vs ≠ []) := by
+  induction vs generalizing m with
+  | nil => exact ⟨h, by simp [dictAddAll], by simp [dictAddAll]⟩
+  | cons w r ih =>
+    simp only [dictAddAll]
+    cases hw : asEntry w with
+    | none =>
+      obtain ⟨h1, h2, h3⟩ := ih m h
+      refine ⟨h1, ?_, ?_⟩
+      · intro v
+        rw [h2]
+        constructor
+        · rintro (hv | ⟨hv, he⟩)
+          · exact Or.inl hv
+          · exact Or.inr ⟨List.mem_cons_of_mem _ hv, he⟩
+        · rintro (hv | ⟨hv, he⟩)
+          · exact Or.inl hv
+          · rcases List.mem_cons.1 hv with rfl | hv
+            · rw [hw] at he; cases he
+            · exact Or.inr ⟨hv, he⟩
+      · rintro (hm | ⟨v, hv, he⟩)
+        · exact h3 (Or.inl hm)
+        · rcases List.mem_cons.1 hv with rfl | hv
+          · rw [hw] at he; cases he
+          · exact h3 (Or.inr ⟨v, hv, he⟩)
+    | some p =>
+      obtain ⟨k, x⟩ := p
+      have hwe := (asEntry_eq_some w k x).1 hw
+      subst hwe
+      obtain ⟨a1, a2, a3⟩ := dictAdd_spec m h k x
+      obtain ⟨h1, h2, h3⟩ := ih (dictAdd m k x) a1
+      refine ⟨h1, ?_, fun _ => h3 (Or.inl a2)⟩
+      intro v
+      rw [h2, a3]
+      constructor
+      · rintro ((rfl | hv) | ⟨hv, he⟩)
+        · exact Or.inr ⟨by simp, by rw [hw]; rfl⟩
+        · exact Or.inl hv
+        · exact Or.inr ⟨List.mem_cons_of_mem _ hv, he⟩
+      · rintro (hv | ⟨hv, he⟩)
+        · exact Or.inl (Or.inr hv)
+        · rcases List.mem_cons.1 hv with rfl | hv
+          · exact Or.inl (Or.inl rfl)
+          · exact Or.inr ⟨hv, he⟩
+
+/-- `NewDict(true, …)` over values that are all dict entries -/
+theorem newDict_spec (vs : List V) (he : ∀ v, v ∈ vs → (asEntry v).isSome = true) :
+    (newDict vs).WF ∧ ∀ v, v ∈ (newDict vs).members ↔ v ∈ vs := by
+  cases vs with
+  | nil => exact ⟨trivial, by simp [newDict, Plain.members]⟩
+  | cons w r =>
+    have hok : DictOK ([] : List (V × DVal)) := ⟨by simp, by simp⟩
+    obtain ⟨h1, h2, h3⟩ := dictAddAll_spec (w :: r) [] hok
+    refine ⟨⟨h3 (Or.inr ⟨w, by simp, he w (by simp)⟩), h1.1, h1.2⟩, ?_⟩
+    intro v
+    show v ∈ dictMembers _ ↔ _
+    rw [h2]
+    simp only [dictMembers, List.not_mem_nil, false_or]
+    constructor
+    · exact fun hh => hh.1
+    · exact fun hh => ⟨hh, he v hh⟩
+
+/-! ### Array.Where -/
+
+theorem kget_arrKeep (f : V → Bool) (vs : List (Option V)) (off : Int) (n : Nat) (x : V) :
+    kget (arrKeep f vs off) n = some x ↔ kget vs n = some x ∧ f (itemV (off + n) x) = true := by
+  induction vs generalizing off n with
+  | nil => simp [arrKeep, kget_nil]
+  | cons v r ih =>
+    cases v with
+    | none =>
+      cases n with
+      | zero => simp [arrKeep, kget_cons_zero]
+      | succ n =>
+        simp only [arrKeep, kget_cons_succ, ih]
+        have : off + 1 + (n : Int) = off + ((n + 1 : Nat) : Int) := by omega
+        rw [this]
+    | some y =>
+      cases n with
+      | zero =>
+        simp only [arrKeep, kget_cons_zero, Int.natCast_zero, Int.add_zero]
+        by_cases hf : f (itemV off y) = true
+        · simp only [hf, if_true, Option.some.injEq]
+          constructor
+          · rintro rfl; exact ⟨rfl, hf⟩
+          · exact fun h => h.1
+        · simp only [hf, Bool.false_eq_true, if_false, reduceCtorEq, Option.some.injEq, false_iff]
+          rintro ⟨rfl, h2⟩
+          exact hf h2
+      | succ n =>
+        simp only [arrKeep, kget_cons_succ, ih]
+        have : off + 1 + (n : Int) = off + ((n + 1 : Nat) : Int) := by omega
+        rw [this]
+
+theorem kcount_arrKeep_le (f : V → Bool) (vs : List (Option V)) (off : Int) :
+    kcount (arrKeep f vs off) ≤ kcount vs := by
+  induction vs generalizing off with
+  | nil => simp [arrKeep]
+  | cons v r ih =>
+    cases v with
+    | none => simpa [arrKeep, kcount] using ih (off + 1)
+    | some y =>
+      simp only [arrKeep, kcount]
+      have := ih (off + 1)
+      split <;> simp [kcount] <;> omega
+
+theorem arrFilter_spec (vs : List (Option V)) (off : Int) (count : Nat) (hc : count = kcount vs) (f : V → Bool) :
+    (arrFilter vs off count f).WF ∧
+    ∀ v, v ∈ (arrFilter vs off count f).members ↔ v ∈ (Plain.arr vs off count).members ∧ f v = true := by
+  have hle := kcount_arrKeep_le f vs off
+  have hn : count - (kcount vs - kcount (arrKeep f vs off)) = kcount (arrKeep f vs off) := by omega
+  have hmem : ∀ v, (∃ i x, v = itemV i x ∧ off ≤ i ∧ kget (arrKeep f vs off) (i - off).toNat = some x) ↔
+      v ∈ (Plain.arr vs off count).members ∧ f v = true := by
+    intro v
+    rw [mem_arr_members]
+    constructor
+    · rintro ⟨i, x, rfl, hle, hg⟩
+      obtain ⟨h1, h2⟩ := (kget_arrKeep f vs off _ x).1 hg
+      have : off + ((i - off).toNat : Int) = i := by omega
+      rw [this] at h2
+      exact ⟨⟨i, x, rfl, hle, h1⟩, h2⟩
+    · rintro ⟨⟨i, x, rfl, hle, hg⟩, hf⟩
+      refine ⟨i, x, rfl, hle, (kget_arrKeep f vs off _ x).2 ⟨hg, ?_⟩⟩
+      have : off + ((i - off).toNat : Int) = i := by omega
+      rw [this]; exact hf
+  unfold arrFilter
+  simp only [hn]
+  split
+  · rename_i h0
+    refine ⟨trivial, ?_⟩
+    intro v
+    rw [← hmem]
+    simp only [Plain.members, List.not_mem_nil, false_iff]
+    rintro ⟨i, x, _, _, hg⟩
+    have := kcount_pos_of_get hg
+    omega
+  · refine ⟨?_, ?_⟩
+    · show kcount (arrKeep f vs off) = kcount (trimBack (trimFront (arrKeep f vs off) off).1)
+      rw [kcount_trimBack, kcount_trimFront]
+    · intro v
+      rw [← hmem]
+      simp only [Plain.members, List.mem_map]
+      rw [kden_trimBack, kden_trimFront]
+      constructor
+      · rintro ⟨⟨i, x⟩, hp, rfl⟩
+        exact ⟨i, x, rfl, (mem_kden _ _ _ _).1 hp⟩
+      · rintro ⟨i, x, rfl, h⟩
+        exact ⟨(i, x), (mem_kden _ _ _ _).2 h, rfl⟩
+
+/-! ## the interface contract: filter (`Where` with a total predicate) -/
+
+/-- a filtered byte array must not have gaps (byte arrays cannot have holes: KF-bytes-holes) -/
+def FilterAdm (p : Plain) (f : V → Bool) : Prop :=
+  match p with
+  | .bytes b off => NoGap (bytePairs ((Plain.bytes b off).members.filter f))
+  | _ => True
+
+theorem str_members_functional (s : List (Option Nat)) (off : Int) (holes : Nat) (l : List V)
+    (hl : ∀ v, v ∈ l → v ∈ (Plain.str s off holes).members) : Functional (charPairs l) := by
+  intro p q hp hq hpq
+  obtain ⟨i, c⟩ := p
+  obtain ⟨j, d⟩ := q
+  simp only at hpq
+  subst hpq
+  obtain ⟨i1, c1, e1, _, g1⟩ := (mem_str_members s off holes _).1 (hl _ ((mem_charPairs l i c).1 hp).1)
+  obtain ⟨i2, c2, e2, _, g2⟩ := (mem_str_members s off holes _).1 (hl _ ((mem_charPairs l i d).1 hq).1)
+  obtain ⟨rfl, rfl⟩ := charV_inj e1
+  obtain ⟨rfl, rfl⟩ := charV_inj e2
+  rw [g1] at g2
+  simpa using g2
+
+theorem bytes_members_functional (b : List Nat) (off : Int) (l : List V)
+    (hl : ∀ v, v ∈ l → v ∈ (Plain.bytes b off).members) : Functional (bytePairs l) := by
+  intro p q hp hq hpq
+  obtain ⟨i, c⟩ := p
+  obtain ⟨j, d⟩ := q
+  simp only at hpq
+  subst hpq
+  obtain ⟨i1, c1, e1, _, g1⟩ := (mem_bytes_members b off _).1 (hl _ ((mem_bytePairs l i c).1 hp).1)
+  obtain ⟨i2, c2, e2, _, g2⟩ := (mem_bytes_members b off _).1 (hl _ ((mem_bytePairs l i d).1 hq).1)
+  obtain ⟨rfl, rfl⟩ := byteV_inj e1
+  obtain ⟨rfl, rfl⟩ := byteV_inj e2
+  rw [g1] at g2
+  simpa using g2
+
+theorem Plain.filter_spec (p : Plain) (h : p.WF) (f : V → Bool) (ha : FilterAdm p f) :
+    (p.filter f).WF ∧ (∀ v, v ∈ (p.filter f).members ↔ v ∈ p.members ∧ f v = true) ∧
+    ((p.filter f).members ≠ [] → (p.filter f).bucket = p.bucket) := by
+  cases p with
+  | empty => exact ⟨trivial, by simp [Plain.filter, Plain.members], by simp [Plain.filter, Plain.members]⟩
+  | true_ =>
+    simp only [Plain.filter]
+    by_cases hf : f (.tup []) = true
+    · simp only [hf, if_true]
+      refine ⟨trivial, ?_, fun _ => trivial⟩
+      intro v
+      simp only [Plain.members, List.mem_singleton]
+      constructor
+      · rintro rfl; exact ⟨rfl, hf⟩
+      · exact fun hh => hh.1
+    · simp only [hf, Bool.false_eq_true, if_false]
+      refine ⟨trivial, ?_, by simp [Plain.members]⟩
+      intro v; simp only [Plain.members, List.not_mem_nil, List.mem_singleton, false_iff]
+      rintro ⟨rfl, h2⟩; exact hf h2
+  | generic xs =>
+    simp only [Plain.filter]
+    refine ⟨fromFrozen_wf _ (FinSet.sorted_filter f xs h.1) ?_, ?_, fun _ => fromFrozen_bucket _⟩
+    · intro x hx; exact h.2.2.2 x (List.mem_filter.1 hx).1
+    · intro v; rw [fromFrozen_members]; simp [Plain.members]
+  | str s off holes =>
+    simp only [Plain.filter]
+    cases hl : (Plain.str s off holes).members.filter f with
+    | nil =>
+      refine ⟨trivial, ?_, by simp [Plain.members]⟩
+      intro v
+      have : v ∉ (Plain.str s off holes).members.filter f := by rw [hl]; simp
+      simp only [Plain.members, List.not_mem_nil, false_iff]
+      intro hc; exact this (List.mem_filter.2 hc)
+    | cons a r =>
+      simp only
+      rw [← hl]
+      have hsub : ∀ v, v ∈ (Plain.str s off holes).members.filter f → v ∈ (Plain.str s off holes).members :=
+        fun v hv => (List.mem_filter.1 hv).1
+      have hrange : ∀ p, p ∈ charPairs ((Plain.str s off holes).members.filter f) → (p.2 : Int) ≤ maxRune := by
+        rintro ⟨i, c⟩ hp; exact ((mem_charPairs _ i c).1 hp).2
+      have hne : charPairs ((Plain.str s off holes).members.filter f) ≠ [] := by
+        have ha' : a ∈ (Plain.str s off holes).members.filter f := by rw [hl]; simp
+        obtain ⟨i, c, rfl, _, hg⟩ := (mem_str_members s off holes a).1 (hsub a ha')
+        intro hc
+        have : (i, c) ∈ charPairs ((Plain.str s off holes).members.filter f) :=
+          (mem_charPairs _ i c).2 ⟨ha', h.2.2 c (kget_mem hg)⟩
+        rw [hc] at this; cases this
+      obtain ⟨w1, w2⟩ := asString_spec _ hne (str_members_functional s off holes _ hsub) hrange
+      refine ⟨w1, ?_, fun _ => rfl⟩
+      intro v
+      rw [w2]
+      constructor
+      · rintro ⟨i, c, rfl, hp⟩
+        exact List.mem_filter.1 ((mem_charPairs _ i c).1 hp).1
+      · intro hv
+        have hv' := List.mem_filter.2 hv
+        obtain ⟨i, c, rfl, _, hg⟩ := (mem_str_members s off holes v).1 hv.1
+        exact ⟨i, c, rfl, (mem_charPairs _ i c).2 ⟨hv', h.2.2 c (kget_mem hg)⟩⟩
+  | bytes b off =>
+    simp only [Plain.filter]
+    simp only [FilterAdm] at ha
+    cases hl : (Plain.bytes b off).members.filter f with
+    | nil =>
+      refine ⟨trivial, ?_, by simp [Plain.members]⟩
+      intro v
+      have : v ∉ (Plain.bytes b off).members.filter f := by rw [hl]; simp
+      simp only [Plain.members, List.not_mem_nil, false_iff]
+      intro hc; exact this (List.mem_filter.2 hc)
+    | cons a r =>
+      simp only
+      rw [← hl]
+      have hsub : ∀ v, v ∈ (Plain.bytes b off).members.filter f → v ∈ (Plain.bytes b off).members :=
+        fun v hv => (List.mem_filter.1 hv).1
+      have hrange : ∀ p, p ∈ bytePairs ((Plain.bytes b off).members.filter f) → (p.2 : Int) ≤ 255 := by
+        rintro ⟨i, c⟩ hp; exact ((mem_bytePairs _ i c).1 hp).2
+      have hne : bytePairs ((Plain.bytes b off).members.filter f) ≠ [] := by
+        have ha' : a ∈ (Plain.bytes b off).members.filter f := by rw [hl]; simp
+        obtain ⟨i, c, rfl, _, hg⟩ := (mem_bytes_members b off a).1 (hsub a ha')
+        intro hc
+        have : (i, c) ∈ bytePairs ((Plain.bytes b off).members.filter f) :=
+          (mem_bytePairs _ i c).2 ⟨ha', h.2 c (List.mem_of_getElem? hg)⟩
+        rw [hc] at this; cases this
+      obtain ⟨w1, w2⟩ := asBytes_spec _ hne (bytes_members_functional b off _ hsub) hrange ha
+      refine ⟨w1, ?_, fun _ => rfl⟩
+      intro v
+      rw [w2]
+      constructor
+      · rintro ⟨i, c, rfl, hp⟩
+        exact List.mem_filter.1 ((mem_bytePairs _ i c).1 hp).1
+      · intro hv
+        have hv' := List.mem_filter.2 hv
+        obtain ⟨i, c, rfl, _, hg⟩ := (mem_bytes_members b off v).1 hv.1
+        exact ⟨i, c, rfl, (mem_bytePairs _ i c).2 ⟨hv', h.2 c (List.mem_of_getElem? hg)⟩⟩
+  | arr vs off count =>
+    simp only [Plain.filter]
+    obtain ⟨w1, w2⟩ := arrFilter_spec vs off count h f
+    refine ⟨w1, w2, ?_⟩
+    intro hne
+    unfold arrFilter at hne ⊢
+    simp only at hne ⊢
+    by_cases h0 : count - (kcount vs - kcount (arrKeep f vs off)) = 0
+    · simp only [h0, if_true, Plain.members] at hne; exact absurd rfl hne
+    · simp only [h0, if_false]; rfl
+  | dict m =>
+    simp only [Plain.filter]
+    have he : ∀ v, v ∈ (Plain.dict m).members.filter f → (asEntry v).isSome = true := by
+      intro v hv
+      have := Plain.members_bucket (.dict m) h v (List.mem_filter.1 hv).1
+      exact (bucketOf_dictEntry_iff v).1 this
+    obtain ⟨w1, w2⟩ := newDict_spec _ he
+    refine ⟨w1, ?_, ?_⟩
+    · intro v; rw [w2]; simp
+    · intro hne
+      cases hl : (Plain.dict m).members.filter f with
+      | nil => rw [hl] at hne; exact absurd rfl hne
+      | cons a r => rfl
+  | rel names rows =>
+    simp only [Plain.filter, relBody]
+    cases hl : rows.filter f with
+    | nil =>
+      simp only [List.isEmpty_nil, if_true]
+      refine ⟨trivial, ?_, by simp [Plain.members]⟩
+      intro v
+      have : v ∉ rows.filter f := by rw [hl]; simp
+      simp only [Plain.members, List.not_mem_nil, false_iff]
+      intro hc; exact this (List.mem_filter.2 hc)
+    | cons a r =>
+      simp only [List.isEmpty_cons, Bool.false_eq_true, if_false]
+      rw [← hl]
+      refine ⟨⟨FinSet.sorted_filter f rows h.1, by rw [hl]; simp, ?_⟩, ?_, fun _ => rfl⟩
+      · intro x hx; exact h.2.2 x (List.mem_filter.1 hx).1
+      · intro v; simp [Plain.members]
